@@ -833,13 +833,31 @@ func hasRepoCaller(p *Program, fn *ssa.Function) bool {
 		}
 		for _, b := range g.Blocks {
 			for _, in := range b.Instrs {
-				if ci, ok := in.(ssa.CallInstruction); ok && ci.Common().StaticCallee() == fn {
+				if ci, ok := in.(ssa.CallInstruction); ok && sameFunc(ci.Common().StaticCallee(), fn) {
 					return true
 				}
 			}
 		}
 	}
 	return false
+}
+
+// sameFunc: the same function, also across instantiations of a generic one.
+func sameFunc(a, b *ssa.Function) bool {
+	if a == nil || b == nil {
+		return false
+	}
+	if a == b {
+		return true
+	}
+	oa, ob := a, b
+	if o := a.Origin(); o != nil {
+		oa = o
+	}
+	if o := b.Origin(); o != nil {
+		ob = o
+	}
+	return oa == ob
 }
 
 // onlyCalledFrom: every static call of fn is in the function named caller.
